@@ -711,7 +711,7 @@ def scenario_term(sc, iter_queries):
     """(per-file results, iter_intermediate_paths answers, hypotheses of C27_precedence hold, every config file as loaded)"""
     q = "[" + "; ".join("(%s, %s)" % (cpath(a), cpath(b)) for a, b in iter_queries) + "]" if iter_queries else "(@nil (path * path))"
     return ("(let f := %s in let e := %s in let rt := %s in let files := %s in "
-            "(map (zres defaults) (map (file_config text idc isn f e rt false) files), map (zres defaults) (run text idc isn f e rt files), "
+            "(map (zres defaults) (map (inline_config text idc isn f e rt) files), map (zres defaults) (run text idc isn f e rt files), "
             "map (fun po => enc_paths (iter_intermediate_paths text f (fst po) (snd po))) %s, "
             "fs_wfb text f && wfdb text (r_overrides text rt), "
             "map (fun nc => enc_res (load_file text idc (fst nc) (snd nc))) (List.concat (map snd f))))") % (
@@ -1469,7 +1469,7 @@ def _run(ctx, coq_ok, base_tmp):
                         try:
                             r = ("ok", call())
                         except Exception as e:  # noqa: BLE001
-                            # "No dialect was specified" is the linter's own requirement (make_child_from_path), not the config stack's
+                            # "No dialect was specified": load_raw_file_and_config's verify_dialect_specified (after the inline scan)
                             r = ("nodialect",) if type(e).__name__ == "SQLFluffUserError" and "No dialect was specified" in str(e) else ("err", exc_kind(e))
                         vl.append(r)
                     info["via_linter"] = vl
@@ -1529,18 +1529,18 @@ def _run(ctx, coq_ok, base_tmp):
                 m = by_text[(p, ar)]
                 ctx.case(None, bucket="scenario-file-via-linter")
                 if r[0] == "nodialect":
-                    # the model says the same (ERuntime); it is legitimate when the file's effective config has no dialect,
-                    # with a dialect it is the finding of C27_inline_dialect_honoured_by_path_refuted
+                    # "No dialect was specified" is right exactly when the file's EFFECTIVE config (inline directives included) has
+                    # no dialect (C27_dialect_required_after_inline).  Pinned regression of the defect repaired in /repo 692586f:
+                    # the dialect used to be demanded before the file's own directives were read.
                     m0 = by_text_nodialect_req[(p, ar)]
                     eff = model_to_py(m0[1]).get("core", {}).get("dialect") if m0[0] == "ok" and isinstance(model_to_py(m0[1]).get("core"), dict) else None
-                    if m != ("err", "ERuntime"):
-                        bad("Model.Config.file_config vs Linter.load_raw_file_and_config", {"input": sc.describe(), "file": "/".join(p), "impl": "No dialect was specified", "model": m[0]})
                     if eff is not None:
                         inline_d = any(l.replace(" ", "").startswith(("--sqlfluff:dialect:", "--sqlfluff:core:dialect:")) for l in ar.splitlines())
                         ctx.violation("dialect-required-before-inline", "linting by path refuses a file (No dialect was specified) whose effective configuration does set a dialect",
                                       {"input": sc.describe(), "file": "/".join(p), "effective_dialect": eff},
                                       attrs={"entry": "Linter.load_raw_file_and_config", "dialect_only_from_inline": inline_d})
-                    continue
+                        continue
+                    r = ("err", "ERuntime")
                 if not same_outcome(m, r, model_to_py):
                     bad("Model.Config.file_config vs Linter.load_raw_file_and_config",
                         {"input": sc.describe(), "file": "/".join(p),
